@@ -214,7 +214,53 @@ def _integral(ring):
     return ring[:2] in ("mi", "mu") and ring != "mI"
 
 
-FIX = {1: "964499d", 2: "6fd4ec8", 3: "0c8663a", 4: "6534350"}     # /repo commits that repaired the defect (frag/C04.fix-<n>.diff)
+# /repo commits that repaired the defect (frag/C04.fix-<n>.diff); None = repair proposed, not applied yet (finding stays `known`)
+FIX = {1: "964499d", 2: "6fd4ec8", 3: "0c8663a", 4: "6534350", 5: None, 6: None, 7: None}
+
+
+def code_site(ring, src):
+    """the template / function of the SOURCE that handles this (ring, source type): findings are keyed by it, not by instantiation"""
+    sb = _sbits(ring)
+    isint = src in SRC_RANGE and not src.startswith("r")
+    sbt = _srcbits(src) if isint else 0
+    uns = isint and SRC_RANGE[src][0] == 0
+    if _integral(ring):
+        fam = "Modular<integral,integral> (modular-integral.inl)"
+        st = "signed" if RINGS[ring][1][0] == "i" else "unsigned"
+        if src == "I":
+            ov = "const Integer&"
+        elif isint and uns and sbt >= sb:
+            ov = "unsigned Source, sizeof >= Storage_t"
+        elif isint and not uns and sbt > sb:
+            ov = "signed Source, sizeof > Storage_t"
+        elif src in ("f", "d") and (32 if src == "f" else 64) >= sb:
+            ov = "floating Source, sizeof >= Storage_t; %s storage" % st
+        else:
+            ov = "const Source& generic; %s storage" % st
+    elif ring in ("mf", "md", "mfd"):
+        fam = "Modular<floating> (modular-floating.inl)"
+        fb = 32 if RINGS[ring][1] == "f" else 64
+        if src == "I":
+            ov = "const Integer&"
+        elif isint and sbt >= fb:
+            ov = ("unsigned" if uns else "signed") + " Source, sizeof >= Storage_t"
+        elif src == "d" and fb == 32:
+            ov = "double into float storage"
+        else:
+            ov = "const Source& generic"
+    else:
+        fam = RING_CXX[ring]
+        explicit = {"bd": ("f", "d", "i64", "u64", "I"), "bf": ("f", "d", "i32", "u32", "i64", "u64", "I"), "bi32": ("f", "d", "i64", "u64", "I"),
+                    "bi64": ("f", "d", "I"), "ef": ("d", "i32", "u32", "i64", "u64"), "ed": (), "mont32": ("d", "i64", "u64", "I"), "mI": (),
+                    "mru7": ("I",), "mru67": ("I",), "gfq32": ("d", "f", "i32", "i64", "I", "u64", "u32"), "gfq64": ("d", "f", "i32", "i64", "I", "u64", "u32"),
+                    "log16": ("i64", "i32", "u64", "u32", "u16", "i16", "d", "f", "I")}[ring]
+        if src in explicit:
+            ov = SRC_CXX[src]
+        elif ring in ("gfq32", "gfq64", "log16") and src in ("i8", "u8", "i16", "u16"):
+            ov = "int32_t"                      # integral promotion
+        else:
+            ov = "const T& generic"
+    return "%s::init(%s)" % (fam, ov)
 
 
 def defect_rules():
@@ -222,6 +268,7 @@ def defect_rules():
     tmin = lambda r, s, m, x: x == SRC_RANGE[s][0]
     LL = ("i32", "i64", "ll")
     neg = lambda r, s, m, x: x < 0
+    ge63 = lambda r, s, m, x: x >= 2**63
     return [
         ("type-min", lambda r: _integral(r), LL, lambda r, s, m, x: tmin(r, s, m, x) and _sbits(r) < _srcbits(s),
          "|y| % p is computed with -y, which overflows for the most negative value; negin() then returns p + |r| (not canonical)", 2),
@@ -233,10 +280,19 @@ def defect_rules():
          "std::abs(a) % p overflows for INT64_MIN; the remainder is negative and negin() yields a wrong element", 2),
         ("type-min", lambda r: r == "mont32", ("i64",), tmin,
          "std::abs(a) % p overflows for INT64_MIN; the remainder is negative and negin() yields a wrong element", 2),
-        ("truncated-to-32-bits", lambda r: r == "mont32", ("ll", "ull"), lambda r, s, m, x: abs(x) >= 2**32,
-         "long long / unsigned long long are not int64_t / uint64_t (long): the generic template is selected, which casts |a| to "
-         "uint32_t BEFORE reducing (`T is supposed to fit into an Element`)", None),
-        ("type-min", lambda r: r in ("mu64", "mu64w", "mru7", "mru67"), ("i32",), tmin,
+        ("truncated-to-32-bits", lambda r: r == "mont32", ("ll", "ull"), lambda r, s, m, x: abs(x) >= 2**32 and x < 2**63,
+         "long long / unsigned long long are not int64_t / uint64_t (long): the generic template was selected, which cast |a| to "
+         "uint32_t BEFORE reducing", 6),
+        ("truncated-to-32-bits", lambda r: r == "bi32", ("ll", "ull"), lambda r, s, m, x: not (-2**31 <= x < 2**31) and x < 2**63,
+         "long long / unsigned long long select the generic template, which cast to int32_t BEFORE reducing", 6),
+        ("rounded-before-reducing", lambda r: r == "bd", ("ll", "ull"), lambda r, s, m, x: abs(x) >= 2**53 and x < 2**63,
+         "long long / unsigned long long select the generic template: Caster<double>(a) rounded values beyond 2^53 before reducing", 6),
+        ("rounded-before-reducing", lambda r: r == "bf", ("ll", "ull"), lambda r, s, m, x: abs(x) >= 2**24 and x < 2**63,
+         "long long / unsigned long long select the generic template: Caster<float>(a) rounded values beyond 2^24 before reducing", 6),
+        ("unsigned-long-long>=2^63", lambda r: r in ("mont32", "bi32", "bd", "bf"), ("ull",), ge63,
+         "the generic template converts the source to int64_t: unsigned long long values >= 2^63 wrap to negative numbers "
+         "(uint64_t has its own overload, unsigned long long is a distinct type)", None),
+        ("int32_t-min-into-64-bit-unsigned-element", lambda r: r in ("mu64", "mu64w", "mru7", "mru67"), ("i32",), tmin,
          "generic init: -y overflows in int for INT32_MIN and the sign-extended value 2^64-2^31 is reduced instead of 2^31", None),
         ("type-min", lambda r: r in ("gfq32", "gfq64"), ("i32", "i64"), tmin,
          "tr = -tr overflows; the table index _q - tr is far outside _pol2log (out-of-bounds read; crashes for int32_t)", None),
@@ -247,9 +303,13 @@ def defect_rules():
         ("negative-multiple-of-m", lambda r: r == "log16", ("i8", "i16", "i32", "i64", "f", "d"),
          lambda r, s, m, x: x < 0 and x % m == 0 and abs(x) < 2**63,
          "init(int64_t): r = p - 0 = p indexes _tab_value2rep one past its end", 3),
-        ("above-signed-max", lambda r: (_integral(r) and RINGS[r][1][0] == "i") or r in ("bi32", "bi64"), ("u8", "u16", "u32", "u64", "ull"),
+        ("unsigned-source-of-storage-width>=2^(N-1)", lambda r: _integral(r) and RINGS[r][1][0] == "i", ("u8", "u16", "u32", "u64", "ull"),
          lambda r, s, m, x: _srcbits(s) == _sbits(r) and x > SRC_RANGE[s][1] // 2,
-         "an unsigned source of the storage width goes through Caster<Element>(y): values >= 2^(N-1) wrap to negative numbers", None),
+         "an unsigned source of the storage width went through the generic Caster<Element>(y): values >= 2^(N-1) wrap to negative numbers", 5),
+        ("unsigned-source-of-storage-width>=2^(N-1)", lambda r: r == "bi32", ("u32",), lambda r, s, m, x: x >= 2**31,
+         "uint32_t went through the generic Caster<Element>(a): values >= 2^31 wrap to negative numbers", 6),
+        ("unsigned-source-of-storage-width>=2^(N-1)", lambda r: r == "bi64", ("u64", "ull"), ge63,
+         "uint64_t goes through the generic Caster<Element>(a): values >= 2^63 wrap to negative numbers", None),
         ("modulus-not-representable-in-source", lambda r: r in ("mi32w", "mu32w", "mi64w", "mu64w"), ("f", "d"),
          lambda r, s, m, x: _sbits(r) == (32 if s == "f" else 64) and not float_representable(m, 24 if s == "f" else 53),
          "fmod(y, Source(_p)): the modulus is rounded to the floating source type, every residue is taken modulo the wrong number", None),
@@ -261,24 +321,18 @@ def defect_rules():
          "the floating value is cast to a 64-bit word before reducing: undefined for |y| >= 2^64", None),
         ("float-beyond-element-range", lambda r: r == "log16", ("f", "d"), lambda r, s, m, x: abs(x) >= 2**63,
          "init(double) is init((int64_t)i): undefined for |i| >= 2^63", None),
-        ("float-beyond-element-range", lambda r: r == "mont32", ("f",), lambda r, s, m, x: abs(x) >= 2**32,
-         "generic init (documented: `T is supposed to fit into an Element`) casts |a| to uint32_t: undefined for |a| >= 2^32", None),
+        ("float-beyond-32-bits", lambda r: r == "mont32", ("f",), lambda r, s, m, x: 2**32 <= abs(x) < 2**63,
+         "the generic template cast |a| to uint32_t before reducing: undefined for |a| >= 2^32", 6),
+        ("float-beyond-element-range", lambda r: r == "mont32", ("f",), lambda r, s, m, x: abs(x) >= 2**63,
+         "the generic template converts the float to int64_t before reducing: undefined for |a| >= 2^63", None),
         ("wider-than-element", lambda r: r in ("mru7", "mru67"), ("I",), lambda r, s, m, x: abs(x) >= 2**(128 if r == "mru7" else 64),
-         "Caster<ruint<K>>(|a|) keeps the low 2^K bits of the Integer before reducing", None),
-        ("beyond-exact-floating-range", lambda r: r in ("ed", "bd"), ("ll", "ull"), lambda r, s, m, x: abs(x) >= 2**53,
-         "long long / unsigned long long select the generic template: Caster<double>(a) rounds values beyond 2^53 before reducing", None),
-        ("beyond-exact-floating-range", lambda r: r == "bf", ("ll", "ull"), lambda r, s, m, x: abs(x) >= 2**24,
-         "long long / unsigned long long select the generic template: Caster<float>(a) rounds values beyond 2^24 before reducing", None),
-        ("beyond-exact-floating-range", lambda r: r == "ef", ("ll", "ull"), lambda r, s, m, x: abs(x) >= 2**24,
-         "long long / unsigned long long select the generic template: Caster<float>(a) rounds values beyond 2^24 before reducing", None),
-        ("truncated-to-32-bits", lambda r: r == "bi32", ("ll", "ull"), lambda r, s, m, x: not (-2**31 <= x < 2**31),
-         "long long / unsigned long long select the generic template, which casts to int32_t BEFORE reducing", None),
-        ("beyond-exact-floating-range", lambda r: r == "ed", ("I", "i64", "u64", "f", "d"), lambda r, s, m, x: abs(x) >= 2**53,
+         "Caster<ruint<K>>(|a|) kept the low 2^K bits of the Integer before reducing", 7),
+        ("beyond-exact-floating-range", lambda r: r == "ed", ("I", "i64", "u64", "ll", "ull", "f", "d"), lambda r, s, m, x: abs(x) >= 2**53,
          "generic init = Caster<double>(a) (rounds) + one-step FMA reduce (valid for |a| < 2^53 only); the exact int64_t/uint64_t/Integer "
          "specialisations are declared for `const T` and never selected", None),
-        ("beyond-exact-floating-range", lambda r: r == "ef", ("I", "f"), lambda r, s, m, x: abs(x) >= 2**24,
+        ("beyond-exact-floating-range", lambda r: r == "ef", ("I", "f", "ll", "ull"), lambda r, s, m, x: abs(x) >= 2**24,
          "generic init = Caster<float>(a) (rounds, inf for wide Integers) + one-step FMA reduce (valid for |a| < 2^24 only); the "
-         "`const Integer&` specialisation is never selected", None),
+         "`const Integer&` specialisation is never selected, long long is not int64_t", None),
     ]
 
 
@@ -300,27 +354,31 @@ def klass_of(ring, src, m, x):
 
 
 def findings():
-    out = []
+    """one entry per (code site, input class); instantiations that share the template are merged"""
+    out = {}
     for kl, rp, srcs, dom, what, fix in defect_rules():
         for ring in sorted(RINGS):
             if not rp(ring):
                 continue
             for src in srcs:
-                # keep only the (ring, source) pairs whose domain can be non-empty
-                m_probe = [3, 16777259, 2**31 - 1, 2**32 - 5, 2**63 - 25, 2**64 - 59]
                 lo, hi = SRC_RANGE.get(src, (-2**300, 2**300))
+                mlo, mhi = {"mi32w": (2, 2**31 - 1), "mu32w": (2, 2**32 - 1), "mi64w": (2, 2**63 - 1), "mu64w": (2, 2**64 - 1)}.get(ring, (2, 101))
+                m_probe = [m for m in (3, 16777259, 2**31 - 1, 2**32 - 5, 2**63 - 25, 2**64 - 59) if mlo <= m <= mhi]
                 xs = [lo, hi, -3, -6, 2**24, -2**24, 2**32, 2**53, -2**53, 2**63, -2**63, 2**64, -2**64, 2**128, -2**128, 2**31, 2**15, 2**7, 200, 40000]
                 if not any(dom(ring, src, m, x) for m in m_probe for x in xs if lo <= x <= hi):
                     continue
-                e = {"property": "C04", "status": "fixed" if fix else "known", "site": "%s::init(%s)" % (RING_CXX[ring], SRC_CXX[src]), "klass": kl}
-                if fix:
+                applied = fix is not None and FIX.get(fix)
+                site = code_site(ring, src)
+                key = (site, kl)
+                e = out.setdefault(key, {"property": "C04", "status": "fixed" if applied else "known", "site": site, "klass": kl, "instantiations": []})
+                e["instantiations"].append("%s <- %s" % (RING_CXX[ring], SRC_CXX[src]))
+                if applied:
                     e["commit"] = FIX[fix]
                     e["what"] = "fixed: property=C04 %s %s" % (FIX[fix], what)
                 else:
-                    e["what"] = what
+                    e["what"] = what + (" [repair proposed: frag/C04.fix-%d.diff]" % fix if fix else "")
                 e["repro"] = "harness/c04_repro.C (standalone, against the real headers); or: bin/check C04 quick with the finding removed"
-                out.append(e)
-    return out
+    return list(out.values())
 
 
 # ------------------------------------------------------------------ running the implementation
@@ -475,12 +533,13 @@ def main(tier, replay=None):
             m = p**k
             t = line.split()
             ml = mo[i].split() if mo is not None else None
-            site = "%s::init(%s)" % (RING_CXX[ring], SRC_CXX.get(src, src)) if op != "const" else "%s::constants" % RING_CXX[ring]
+            site = code_site(ring, src) if op != "const" else "%s::constants" % RING_CXX[ring]
+            inst = "%s::init(%s)" % (RING_CXX[ring], SRC_CXX.get(src, src))
             if line == "NOFORM":
                 continue
             dist[ring + "/" + src] = dist.get(ring + "/" + src, 0) + 1
             chk.count((op, ring, src, p, k, x), nontrivial=(abs(x) >= m or x < 0))
-            case = {"op": op, "ring": ring, "src": src, "p": p, "k": k, "x": str(x)}
+            case = {"op": op, "ring": ring, "src": src, "p": p, "k": k, "x": str(x), "call": inst}
             kl = klass_of(ring, src, m, x) if op != "const" else "constants"
             nfail = len(chk.failing)
             if len(chk.cov["samples"]) < 12 and i % 1499 == 7:
@@ -518,7 +577,7 @@ def main(tier, replay=None):
                         got_m = t[1] if kind == "tab" else t[0]
                         if ml[0] != got_m:
                             chk.broke("correspondence: model and implementation differ on %s m=%d x=%d: model=%s impl=%s (oracle agrees with impl)"
-                                      % (site, m, x, ml[0], got_m))
+                                      % (inst, m, x, ml[0], got_m))
             elif op == "rt":
                 want_lift = lift(ring, m, x)
                 if (ring, src, p, k, x) in bad_init or (kind != "tab" and t[0] != str(canon(ring, m, x))):
@@ -528,7 +587,7 @@ def main(tier, replay=None):
                     if rg is not None and not (rg[0] <= want_lift <= rg[1]):
                         continue        # the lift does not fit the intermediate type: outside the claim
                     if got != t[0]:
-                        chk.fail_input("%s::init(%s)/roundtrip" % (RING_CXX[ring], SRC_CXX[form]),
+                        chk.fail_input(code_site(ring, form) + "/roundtrip",
                                        klass_of(ring, form, m, want_lift), case, t[0], got, "init(convert<%s>(e)) != e" % form)
                         break
                 if ml is not None and len(chk.failing) == nfail and ml[0] not in ("NOMODEL", "UB") and kind != "tab":
